@@ -454,8 +454,10 @@ def finish(res):
         "wall_s": round(time.time() - ctx.t0, 1), "violations": len(new),
         "known_findings_hit": len(known_printed),
     }
-    os.makedirs(os.path.join(VERIF, "evidence"), exist_ok=True)
-    with open(os.path.join(VERIF, "evidence", ctx.pid + ".json"), "w") as f:
+    # evidence/ describes runs against /repo itself; a run against a scratch copy (VERIF_REPO: seeded changes) keeps its own
+    evdir = os.path.join(VERIF, "evidence") if REPO == "/repo" else os.path.join(VERIF, "evidence-scratch")
+    os.makedirs(evdir, exist_ok=True)
+    with open(os.path.join(evdir, ctx.pid + ".json"), "w") as f:
         json.dump(ev, f, indent=1)
     seen = set()
     for sig, replay, text in new:
